@@ -14,7 +14,8 @@ import (
 
 // Sent is one frame handed to the socket by the library.
 type Sent struct {
-	T     mc.Duration
+	T0    mc.Duration // the write was entered
+	T     mc.Duration // the write returned (the frame has left)
 	G     int
 	GSite string
 	Svc   knxnet.Service // shallow copy
@@ -72,6 +73,7 @@ type Sock struct {
 	Log        []Sent
 	OnSend     func(s *Sent) // gateway reaction, runs in the sender's goroutine right after the frame "left"
 	FailSend   func(p knxnet.ServicePackable) error
+	WriteTime  func(p knxnet.ServicePackable) mc.Duration // how long this write blocks (nil: not at all)
 	Closed     bool
 	CloseN     int
 	Usable     bool // Send succeeds
@@ -168,7 +170,14 @@ func pack(p knxnet.ServicePackable) (b []byte) {
 
 func (s *Sock) Send(p knxnet.ServicePackable) error {
 	mc.Yield()
-	rec := Sent{T: mc.Now(), G: mc.GID(), Svc: copySvc(p), Idx: len(s.Log)}
+	t0 := mc.Now()
+	if s.WriteTime != nil {
+		// a write that blocks (full send buffer, slow interface): the frame has left when it returns
+		if d := s.WriteTime(p); d > 0 {
+			mc.Sleep(d)
+		}
+	}
+	rec := Sent{T: mc.Now(), T0: t0, G: mc.GID(), Svc: copySvc(p), Idx: len(s.Log)}
 	if s.Closed || !s.Usable {
 		rec.Err = ErrSockClosed
 	} else if s.FailSend != nil {
